@@ -10,32 +10,34 @@
 
    Some operations keep the invariants only in states that satisfy a side condition; the side conditions are collected in
    [guard2 tol o a] (and [guardw2 o a], extra conditions for the weights) and the history theorems ask for them along the run
-   ([guarded2], [guardedw2]):
-     OpOld (OpInsert d xs)   direction d is not periodic           (weights: the new knots lie strictly below the end)
+   ([guarded2], [guardedw2]).  "roomy b" means order + periodicity <= number of functions.
+     OpOld (OpInsert d xs)   direction d is not periodic, OR it is periodic with exact ghost images and roomy
+                                                   (weights: non-periodic direction, new knots strictly below the end)
      OpOld (other 8 ops)     none
      OpRaise am              0 <= tol; every raised direction is non-periodic with tol < end - start
-                                                                    (weights: only the trivial raise; interpolation at the
-                                                                     Greville points does not keep weights positive)
+                                                   (weights: only the trivial raise; interpolation at the Greville points
+                                                    does not keep weights positive)
      OpSplitPick d ks idx    the hypotheses split_hyps of Proofs/SplitCompose.v (non-periodic direction, split values
                              2*tol apart from each other and from the domain ends, tol-separated from other knots)
      OpSection, OpRotate, OpMirror   none
      OpMakePeriodic cont d   order + cont <= number of functions in direction d
+     OpLowerPeriodic t d     direction d has exact ghost images and is roomy            (weights: not carried)
      OpAppend o2             inv o2 and the raise condition for the operand of lower order   (weights: equal orders, o2 positive)
      OpMakeIdentical o2 dir  0 <= tol < 1, inv o2, no periodic direction in o or o2, same parametric dimension
-                                                                    (weights: not carried, the order may be raised)
-     OpLowerOrder, OpLowerPeriodic   NOT covered (guard False): lower_order builds its knot vector from continuity counts, which
-                             gives 2*order <= #knots and start < end only for clamped knot vectors with consistent
-                             multiplicities; lower_periodic inserts knots into a periodic direction.
-   Knot insertion into a periodic direction is guarded out because the clauses of [inv] are not inductive there
-   ([periodic_insert_counterexample]); it needs the exact-image property AND enough functions, and the ghost-knot repair
-   loops were not analysed.
+                                                   (weights: not carried, the order may be raised)
+     OpLowerOrder            NOT covered (guard False): lower_order builds its knot vector from tolerance-dependent continuity
+                             counts, which give 2*order <= #knots and start < end only for clamped knot vectors whose knots
+                             are tol-separated; that analysis was not done.
+   A periodic direction that is not roomy, or whose ghost knots are not exact images, is excluded from knot insertion because
+   the clauses of [inv] alone are not inductive there ([periodic_insert_counterexample]).  Splitting in a periodic direction
+   is not covered either (split_hyps asks for a non-periodic direction).
 
    Main results: step2_preserves_inv, step2_preserves_ghost, step2_preserves_weights, reachable_inv, trace_inv,
    reachable_inv_ghost, reachable_weights; the purely syntactic corollaries reachable_inv_any (operations whose guard is
    trivial: everything of Model/Ops.v except insertion, section, rotate, mirror) and reachable_inv_covered (the same plus
-   insertion, for objects without periodic directions); accessor consistency (shape_accessor, cps_accessor, ravel_cons,
-   flat_index_bijection, ravel_rev, c2f_entry); non-vacuity: witness_R, witness_R_periodic (R), ops2_example_Q (Q, ten
-   operations of ten kinds). *)
+   insertion, for objects without periodic directions); knots_ok_insert_per / basis_insert_knot_per_ok (periodic knot
+   insertion with ghost-knot repair); accessor consistency (shape_accessor, cps_accessor, ravel_cons, flat_index_bijection,
+   ravel_rev, c2f_entry); non-vacuity: witness_R, witness_R_periodic (R), ops2_example_Q (Q, twelve operations). *)
 From Coq Require Import List Arith Reals Lra Lia Bool ZArith Permutation Sorted.
 From SplipyModel Require Import Spec.BSpline Model.Num Model.BasisDef Model.BasisEval Model.Tensor Model.Obj Model.KnotInsert
   Model.Reparam Model.Affine Model.Tol Model.Solve Model.Interp Model.Order Model.Split Model.Section Model.Periodic Model.Identical
@@ -275,11 +277,14 @@ Proof.
 Qed.
 
 Lemma pi_result : length per_kfin = S (length k) /\ lsortedn per_kfin /\ nth (p - 1) per_kfin 0 = s /\
-  nth (S (length k) - p) per_kfin 0 = e /\ forall i, (i <= p + r)%nat -> nth (i + nf + 1) per_kfin 0 = nth i per_kfin 0 + T.
+  nth (S (length k) - p) per_kfin 0 = e /\ (forall i, (i <= p + r)%nat -> nth (i + nf + 1) per_kfin 0 = nth i per_kfin 0 + T) /\
+  (x = s -> nth p per_kfin 0 = s).
 Proof.
   pose proof Hb as (Hp & Hlen & HK & Hse). pose proof pi_len as HL. pose proof pi_m as Hm. destruct pi_mu as ((M1 & M2) & MB & MC).
   pose proof pi_mu_r as M3. pose proof pi_sorted' as SK. pose proof (nth_of_sorted_kn k HK) as NK.
   assert (KN : forall j, (j < length k)%nat -> kn k j = nth j k 0) by (intros j Hj; apply kn_in; exact Hj).
+  assert (KP : x = s -> (p < mu)%nat -> nth p k 0 = s).
+  { intros Ex Hpm. pose proof (MB p Hpm) as Q1. pose proof (HK (p - 1)%nat p ltac:(lia)) as Q2. rewrite <- KN by lia. unfold b_start in *. lra. }
   unfold per_kfin. rewrite Hm. replace (S (length k) - p - r - 1)%nat with (nf + 1)%nat by lia.
   destruct (Nat.leb_spec mu (p + r)) as [CB|CB].
   - (* repair_right *)
@@ -296,7 +301,9 @@ Proof.
     { intros j Hj. rewrite FN by lia. destruct (Nat.leb_spec (nf + 1) j); destruct (Nat.ltb_spec j (nf + 1 + (p + r + 1))); cbn [andb]; try lia; [|reflexivity].
       cbn [nadd nsub NumR]. rewrite E0, E1. ring. }
     clear FN. set (res := fold_left _ _ k') in *.
-    split; [rewrite FL; exact Hm|]. split; [|split; [|split]].
+    split; [rewrite FL; exact Hm|]. split; [|split; [|split; [|split]]].
+    5:{ intros Ex. rewrite FN' by lia. destruct (Nat.leb_spec (nf + 1) p); [lia|]. rewrite pi_nth'. destruct (Nat.ltb_spec p mu); [apply KP; assumption|].
+        destruct (Nat.eqb_spec p mu); [exact Ex|lia]. }
     + intros i j Hij. rewrite FL, Hm in Hij. rewrite !FN' by lia.
       destruct (Nat.leb_spec (nf + 1) i); destruct (Nat.leb_spec (nf + 1) j); try lia.
       * pose proof (SK (i - (nf + 1))%nat (j - (nf + 1))%nat ltac:(lia)). lra.
@@ -329,7 +336,10 @@ Proof.
       assert (Hnp : (mu < nf + p)%nat).
       { destruct (Nat.lt_ge_cases mu (nf + p)) as [L|L]; [exact L|exfalso]. pose proof (MB (nf + p - 1)%nat ltac:(lia)) as Q.
         replace (nf + p - 1)%nat with (p - 1 + nf)%nat in Q by lia. rewrite pi_img in Q by lia. unfold b_start in Hx. unfold b_start, b_end in Q. unfold b_end in Hx. lra. }
-      split; [rewrite FL; exact Hm|]. split; [|split; [|split]].
+      split; [rewrite FL; exact Hm|]. split; [|split; [|split; [|split]]].
+      5:{ intros Ex. rewrite FN' by lia. destruct (Nat.ltb_spec p (p + r + 1)); [|lia]. rewrite pi_nth'. destruct (Nat.ltb_spec (nf + 1 + p) mu); [lia|].
+          destruct (Nat.eqb_spec (nf + 1 + p) mu); [lia|]. replace (nf + 1 + p - 1)%nat with (p + nf)%nat by lia. rewrite <- KN by lia. rewrite pi_img by lia.
+          rewrite KN by lia. rewrite KP by (try assumption; lia). ring. }
       * intros i j Hij. rewrite FL, Hm in Hij. rewrite !FN' by lia.
         destruct (Nat.ltb_spec i (p + r + 1)); destruct (Nat.ltb_spec j (p + r + 1)); try lia.
         -- pose proof (SK (nf + 1 + i)%nat (nf + 1 + j)%nat ltac:(lia)). lra.
@@ -347,7 +357,8 @@ Proof.
       * intros i Hi. rewrite !FN' by lia. destruct (Nat.ltb_spec (i + nf + 1) (p + r + 1)); [lia|]. destruct (Nat.ltb_spec i (p + r + 1)); [|lia].
         replace (nf + 1 + i)%nat with (i + nf + 1)%nat by lia. ring.
     + (* no repair *)
-      split; [exact Hm|]. split; [exact SK|]. split; [|split].
+      split; [exact Hm|]. split; [exact SK|]. split; [|split; [|split]].
+      4:{ intros Ex. rewrite pi_nth'. destruct (Nat.ltb_spec p mu); [apply KP; assumption|lia]. }
       * rewrite pi_nth'. destruct (Nat.ltb_spec (p - 1) mu); [|lia]. symmetry. apply KN. lia.
       * rewrite pi_nth'. destruct (Nat.ltb_spec (S (length k) - p) mu); [lia|]. destruct (Nat.eqb_spec (S (length k) - p) mu); [lia|].
         replace (S (length k) - p - 1)%nat with (length k - p)%nat by lia. rewrite <- KN by lia. reflexivity.
@@ -362,7 +373,8 @@ Definition roomy (b : basis R) : Prop := (b_order b + b_per1 b - 1 <= b_nfun b)%
 Lemma knots_ok_insert_per (b b' : basis R) x0 C : knots_ok b -> images_ok b -> b_per1 b <> 0%nat -> roomy b ->
   basis_insert_knot b x0 = Ok (b', C) ->
   knots_ok b' /\ images_ok b' /\ roomy b' /\ b_per1 b' = b_per1 b /\ b_order b' = b_order b /\ b_nfun b' = S (b_nfun b) /\
-  b_start b' = b_start b /\ b_end b' = b_end b.
+  b_start b' = b_start b /\ b_end b' = b_end b /\ length (b_knots b') = S (length (b_knots b)) /\
+  (x0 = b_start b -> kn (b_knots b') (b_order b) = b_start b).
 Proof.
   intros Hb Him Hper Hroom. pose proof Hb as (Hp & Hlen & HK & Hse). unfold basis_insert_knot, wrap_knot.
   destruct (Nat.eqb_spec (b_per1 b) 0) as [E0|_]; [contradiction|]. cbn [negb]. cbv zeta.
@@ -373,7 +385,9 @@ Proof.
     destruct (Rleb_spec (b_end b) x0) as [A'|A']; lra. }
   destruct (negb _); [discriminate|]. intros [= <- _].
   change (mkBasis (b_order b) _ (b_per1 b)) with (mkBasis (b_order b) (per_kfin b x) (b_per1 b)).
-  destruct (pi_result b Hb Him Hper Hroom x Hx) as (RL & RS & Rs & Re & Ri).
+  assert (Hxs : x0 = b_start b -> x = b_start b).
+  { intros ->. unfold x. cbn [nltb nleb NumR]. destruct (Rltb_spec (b_start b) (b_start b)); [lra|]. destruct (Rleb_spec (b_end b) (b_start b)); [lra|reflexivity]. }
+  destruct (pi_result b Hb Him Hper Hroom x Hx) as (RL & RS & Rs & Re & Ri & Rp).
   assert (HL : length (b_knots b) = (b_nfun b + b_order b + (b_per1 b - 1) + 1)%nat) by (unfold roomy, b_nfun in *; lia).
   assert (Hs' : b_start (mkBasis (b_order b) (per_kfin b x) (b_per1 b)) = b_start b).
   { unfold b_start at 1. cbn [b_order b_knots]. rewrite (kn_in (per_kfin b x) (b_order b - 1)%nat ltac:(lia) 0). exact Rs. }
@@ -381,7 +395,8 @@ Proof.
   { unfold b_end at 1. cbn [b_order b_knots]. rewrite RL. rewrite (kn_in (per_kfin b x) (S (length (b_knots b)) - b_order b)%nat ltac:(lia) 0). exact Re. }
   assert (Hn' : b_nfun (mkBasis (b_order b) (per_kfin b x) (b_per1 b)) = S (b_nfun b)).
   { unfold b_nfun. cbn [b_order b_knots b_per1]. rewrite RL. unfold roomy, b_nfun in Hroom. lia. }
-  split; [|split; [|split; [|split; [reflexivity|split; [reflexivity|split; [exact Hn'|split; [exact Hs'|exact He']]]]]]].
+  split; [|split; [|split; [|split; [reflexivity|split; [reflexivity|split; [exact Hn'|split; [exact Hs'|split; [exact He'|split; [exact RL|]]]]]]]]].
+  4:{ intros E0. cbn [b_knots]. rewrite (kn_in (per_kfin b x) (b_order b) ltac:(lia) 0). apply Rp. apply Hxs. exact E0. }
   - split; [exact Hp|]. split; [cbn [b_order b_knots]; rewrite RL; lia|]. split; [apply sorted_kn_of_nth; exact RS|rewrite Hs', He'; exact Hse].
   - intros _ i Hi. rewrite Hs', He', Hn' in *. cbn [b_knots] in *. rewrite RL in Hi.
     rewrite (kn_in (per_kfin b x) (i + S (b_nfun b))%nat ltac:(lia) 0), (kn_in (per_kfin b x) i ltac:(lia) 0).
@@ -1926,6 +1941,116 @@ Proof.
 Qed.
 
 (* ------------------------------------------------------------------------------------------------ *)
+(* lower_periodic: one step = insert the start knot, roll knots and net by one, drop the last knot *)
+Section LowerStep.
+Variable b1 : basis R.
+Hypothesis K1 : knots_ok b1.
+Hypothesis Im1 : images_ok b1.
+Hypothesis P1 : b_per1 b1 <> 0%nat.
+Hypothesis Ro1 : roomy b1.
+Hypothesis Hp1 : kn (b_knots b1) (b_order b1) = b_start b1.
+Local Notation p := (b_order b1).
+Local Notation k1 := (b_knots b1).
+Local Notation q := (b_per1 b1).
+Local Notation n1 := (b_nfun b1).
+Local Notation T := (b_end b1 - b_start b1).
+Local Notation kk := (b_knots (basis_roll b1 1)).
+Definition lp_basis : basis R := mkBasis p (firstn (length kk - 1) kk) (q - 1).
+
+Lemma lp_len : length k1 = (n1 + p + q)%nat.
+Proof. destruct K1 as (Hp & _). unfold roomy, b_nfun in *. lia. Qed.
+
+Lemma lp_img i : (i + n1 < length k1)%nat -> nth (i + n1) k1 0 = nth i k1 0 + T.
+Proof. intros Hi. rewrite <- !(kn_in k1) by lia. apply (Im1 P1). exact Hi. Qed.
+
+Lemma lp_kk_length : length kk = length k1.
+Proof.
+  pose proof lp_len as HL. destruct K1 as (Hp & _). unfold basis_roll. cbv zeta. cbn [b_knots].
+  rewrite app_length, map_length, !length_slice. fold n1. lia.
+Qed.
+
+Lemma lp_kk_nth j : (j + 1 < length k1)%nat -> nth j kk 0 = nth (j + 1) k1 0.
+Proof.
+  intros Hj. pose proof lp_len as HL. destruct K1 as (Hp & _). unfold roomy in Ro1. unfold basis_roll. cbv zeta. cbn [b_knots].
+  change (length k1 - p - q)%nat with n1.
+  assert (LL : length (slice_list k1 1 n1) = (n1 - 1)%nat) by (rewrite length_slice; lia). rewrite LL.
+  rewrite nth_app_if, LL. destruct (Nat.ltb_spec j (n1 - 1)) as [A|A].
+  - rewrite nth_slice by lia. f_equal. lia.
+  - rewrite (nth_map0 (fun x => nsub x (nsub (kn k1 0) (kn k1 n1)))) by (rewrite length_slice; lia). rewrite nth_slice by lia. cbn [Nat.add nsub NumR].
+    rewrite (kn_in k1 0%nat ltac:(lia) 0), (kn_in k1 n1 ltac:(lia) 0). pose proof (lp_img 0%nat ltac:(lia)) as I0. cbn [Nat.add] in I0. rewrite I0.
+    pose proof (lp_img (j - (n1 - 1))%nat ltac:(lia)) as Ij. replace (j - (n1 - 1) + n1)%nat with (j + 1)%nat in Ij by lia. rewrite Ij. ring.
+Qed.
+
+Lemma lp_L2_length : length (b_knots lp_basis) = (length k1 - 1)%nat.
+Proof. cbn [lp_basis b_knots]. rewrite firstn_length, lp_kk_length. lia. Qed.
+
+Lemma lp_L2_nth j : (j + 1 < length k1)%nat -> nth j (b_knots lp_basis) 0 = nth (j + 1) k1 0.
+Proof. intros Hj. cbn [lp_basis b_knots]. rewrite nth_firstn_lt by (rewrite lp_kk_length; lia). apply lp_kk_nth. exact Hj. Qed.
+
+Lemma lp_basis_facts : knots_ok lp_basis /\ images_ok lp_basis /\ roomy lp_basis /\ b_nfun lp_basis = n1 /\
+  b_per1 lp_basis = (q - 1)%nat /\ b_order lp_basis = p /\ b_start lp_basis = b_start b1 /\ b_end lp_basis = b_end b1.
+Proof.
+  pose proof lp_len as HL. pose proof K1 as (Hp & Hlen & HK & Hse). pose proof lp_L2_length as L2. unfold roomy in Ro1.
+  pose proof (nth_of_sorted_kn k1 HK) as NK.
+  assert (Hn : b_nfun lp_basis = n1) by (unfold b_nfun at 1; rewrite L2; cbn [lp_basis b_order b_per1]; lia).
+  assert (Hs : b_start lp_basis = b_start b1).
+  { unfold b_start at 1. cbn [lp_basis b_order]. fold lp_basis. rewrite (kn_in (b_knots lp_basis) (p - 1)%nat ltac:(lia) 0). rewrite lp_L2_nth by lia.
+    replace (p - 1 + 1)%nat with p by lia. rewrite <- (kn_in k1) by lia. exact Hp1. }
+  assert (He : b_end lp_basis = b_end b1).
+  { unfold b_end at 1. rewrite L2. cbn [lp_basis b_order]. fold lp_basis. rewrite (kn_in (b_knots lp_basis) (length k1 - 1 - p)%nat ltac:(lia) 0). rewrite lp_L2_nth by lia.
+    unfold b_end. rewrite (kn_in k1 (length k1 - p)%nat ltac:(lia) 0). f_equal. lia. }
+  split; [|split; [|split; [|split; [exact Hn|split; [reflexivity|split; [reflexivity|split; assumption]]]]]].
+  - split; [exact Hp|]. split; [rewrite L2; cbn [lp_basis b_order]; lia|]. split; [|rewrite Hs, He; exact Hse].
+    apply sorted_kn_of_nth. intros i j Hij. rewrite L2 in Hij. rewrite !lp_L2_nth by lia. apply NK. lia.
+  - intros _ i Hi. rewrite Hn, Hs, He, L2 in *. rewrite (kn_in (b_knots lp_basis) (i + n1)%nat ltac:(lia) 0), (kn_in (b_knots lp_basis) i ltac:(lia) 0). rewrite !lp_L2_nth by lia.
+    replace (i + n1 + 1)%nat with (i + 1 + n1)%nat by lia. apply lp_img. lia.
+  - unfold roomy. rewrite Hn. cbn [lp_basis b_order b_per1]. lia.
+Qed.
+End LowerStep.
+
+Lemma roll_matrix_length n mu : length (@roll_matrix R NumR n mu) = n.
+Proof. unfold roll_matrix. rewrite map_length, seq_length. reflexivity. Qed.
+
+Definition guard_lower_periodic (o : obj R) (d : nat) : Prop :=
+  images_ok (nth d (o_bases o) dflt_basis) /\ roomy (nth d (o_bases o) dflt_basis).
+
+Lemma lower_periodic_inv t d : forall fuel (o o' : obj R), inv o -> (d < length (o_bases o))%nat -> guard_lower_periodic o d ->
+  obj_lower_periodic fuel o t d = Ok o' ->
+  inv o' /\ length (o_bases o') = length (o_bases o) /\ images_ok (nth d (o_bases o') dflt_basis) /\
+  (forall i, i <> d -> nth i (o_bases o') dflt_basis = nth i (o_bases o) dflt_basis).
+Proof.
+  induction fuel as [|f IH]; intros o o' HI Hd [Him Hro].
+  - cbn [obj_lower_periodic]. destruct (_ <? _)%nat; [discriminate|]. destruct (_ <? _)%nat; [discriminate|]. intros [= <-]. split; [exact HI|split; [reflexivity|split; [exact Him|intros; reflexivity]]].
+  - cbn [obj_lower_periodic]. fold dflt_basis. set (b := nth d (o_bases o) dflt_basis) in *.
+    destruct (Nat.ltb_spec t (b_per1 b)) as [Ht|Ht]; [|destruct (_ <? _)%nat; [discriminate|]; intros [= <-]; split; [exact HI|split; [reflexivity|split; [exact Him|intros; reflexivity]]]].
+    destruct (obj_insert_knots o d [b_start b]) as [o1|er] eqn:E1; [|discriminate].
+    assert (Hper : b_per1 b <> 0%nat) by lia.
+    pose proof (Forall_nth_in _ _ d dflt_basis (proj2 HI) Hd) as Kb. fold b in Kb.
+    cbn [obj_insert_knots] in E1. fold dflt_basis in E1. fold b in E1.
+    destruct (basis_insert_knot b (b_start b)) as [[b1 C]|er] eqn:EB; [|discriminate].
+    destruct (knots_ok_insert_per b b1 (b_start b) C Kb Him Hper Hro EB) as (K1 & I1 & R1 & Q1 & Q2 & Q3 & Q4 & Q5 & Q6 & Q7).
+    specialize (Q7 eq_refl). rewrite <- Q2, <- Q4 in Q7.
+    assert (Es : step o (OpInsert d [b_start b]) = Ok o1).
+    { cbn [step]. unfold o_pardim. destruct (Nat.ltb_spec d (length (o_bases o))); [|lia]. cbn [obj_insert_knots]. fold dflt_basis. fold b. rewrite EB. exact E1. }
+    assert (HI1 : inv o1) by (apply (step_preserves_inv o o1 (OpInsert d [b_start b]) HI); [right; split; assumption|exact Es]).
+    injection E1 as <-. cbn [o_bases] in *. rewrite InsertEndToEnd.upd_nth_same by exact Hd.
+    assert (P1 : b_per1 b1 <> 0%nat) by lia.
+    destruct (lp_basis_facts b1 K1 I1 P1 R1 Q7) as (K2 & I2 & R2 & N2 & _).
+    change (mkBasis (b_order b1) (firstn (length (b_knots (basis_roll b1 1)) - 1) (b_knots (basis_roll b1 1))) (b_per1 b1 - 1)) with (lp_basis b1).
+    set (o1 := mkObj (upd (o_bases o) d b1) (apply_dir (o_ncomp o) (o_shape o) d C (o_cps o)) (o_dim o) (o_rat o)) in *.
+    set (o2 := obj_along o1 d (lp_basis b1) (roll_matrix (b_nfun b1) 1)).
+    assert (Hd1 : (d < length (o_bases o1))%nat) by (cbn [o1 o_bases]; rewrite upd_length; exact Hd).
+    assert (HI2 : inv o2).
+    { destruct HI1 as [HS1 HB1]. unfold o2, obj_along. split.
+      - apply shape_ok_along; [exact HS1|exact Hd1|rewrite roll_matrix_length; symmetry; exact N2|rewrite roll_matrix_length; unfold roomy in R1; destruct K1; lia].
+      - cbn [o_bases]. apply Forall_upd; assumption. }
+    intros E. destruct (IH o2 o' HI2) as (A1 & A2 & A3 & A4); [unfold o2, obj_along; cbn [o_bases]; rewrite upd_length; exact Hd1| |exact E|].
+    + unfold guard_lower_periodic, o2, obj_along. cbn [o_bases]. rewrite InsertEndToEnd.upd_nth_same by exact Hd1. split; assumption.
+    + split; [exact A1|]. split; [rewrite A2; unfold o2, obj_along; cbn [o_bases o1]; rewrite !upd_length; reflexivity|]. split; [exact A3|].
+      intros i Hi. rewrite A4 by exact Hi. unfold o2, obj_along. cbn [o_bases o1]. rewrite !upd_nth_other by exact Hi. reflexivity.
+Qed.
+
+(* ------------------------------------------------------------------------------------------------ *)
 (* the side conditions, per operation and per state *)
 Definition guard2 (tol : R) (o : obj R) (a : @op2 R) : Prop :=
   match a with
@@ -1937,7 +2062,7 @@ Definition guard2 (tol : R) (o : obj R) (a : @op2 R) : Prop :=
   | OpRotate _ _ _ _ => True
   | OpMirror _ _ => True
   | OpMakePeriodic cont d => guard_make_periodic o cont d
-  | OpLowerPeriodic _ _ => False
+  | OpLowerPeriodic _ d => guard_lower_periodic o d
   | OpAppend o2 => guard_append tol o o2
   | OpMakeIdentical o2 dir => guard_identical tol o o2 dir
   end.
@@ -1949,6 +2074,7 @@ Definition guardw2 (o : obj R) (a : @op2 R) : Prop :=
   | OpRaise am => Forall (fun r => r = 0%nat) am          (* interpolation at the Greville points does not keep weights positive *)
   | OpAppend o2 => weights_pos o2 /\ b_order (nth 0 (o_bases o) dflt_basis) = b_order (nth 0 (o_bases o2) dflt_basis)
   | OpMakeIdentical _ _ => False                           (* may raise the order *)
+  | OpLowerPeriodic _ _ => False                           (* inserts into a periodic direction *)
   | _ => True
   end.
 
@@ -1966,6 +2092,7 @@ Proof.
   - exact (proj1 (rotate_inv o o' ch sh nrm iv HI E)).
   - exact (proj1 (mirror_inv o o' nrm iv HI E)).
   - cbn [step2] in E. destruct (Nat.ltb_spec d (o_pardim o)) as [L|L]; [|discriminate]. exact (make_periodic_inv o o' cont d HI L G E).
+  - cbn [step2] in E. destruct (Nat.ltb_spec d (o_pardim o)) as [L|L]; [|discriminate]. exact (proj1 (lower_periodic_inv t d 64 o o' HI L G E)).
   - cbn [step2] in E. destruct (Nat.eqb_spec (o_pardim o) 1) as [L1|L1]; [|discriminate]. destruct (Nat.eqb_spec (o_pardim o2) 1) as [L2|L2]; [|discriminate].
     cbn [andb] in E. exact (proj1 (append_inv tol o o2 o' HI L1 L2 G E)).
   - cbn [step2] in E. destruct (obj_make_identical tol o o2 dir) as [ab|er] eqn:EI; [|discriminate]. injection E as <-.
@@ -2050,6 +2177,15 @@ Qed.
 Lemma nonper_ghost (o : obj R) : nonper o -> ghost_ok o.
 Proof. intros H. unfold ghost_ok, nonper in *. apply Forall_forall. intros b Hb. rewrite Forall_forall in H. apply images_ok_nonper, H, Hb. Qed.
 
+(* with the ghost-knot invariant at hand the guard of a knot insertion is a test on the state: non-periodic or roomy *)
+Lemma guard_insert_of_ghost (o : obj R) d xs : ghost_ok o ->
+  (b_per1 (nth d (o_bases o) dflt_basis) = 0%nat \/ roomy (nth d (o_bases o) dflt_basis)) -> guard_old o (OpInsert d xs).
+Proof.
+  intros HG [H0|Hr]; [left; exact H0|]. cbn [guard_old]. destruct (Nat.lt_ge_cases d (length (o_bases o))) as [Hd|Hd].
+  - right. split; [apply (Forall_nth_in _ _ d dflt_basis HG Hd)|exact Hr].
+  - left. rewrite nth_overflow by exact Hd. reflexivity.
+Qed.
+
 Theorem step2_preserves_ghost tol (o o' : obj R) (a : @op2 R) : inv o -> ghost_ok o -> guard2 tol o a -> step2 tol o a = Ok o' -> ghost_ok o'.
 Proof.
   intros HI HG G E. destruct a as [a'|am|am|d ks idx|sels|ch sh nrm iv|nrm iv|cont d|t d|o2|o2 dir]; cbn [guard2] in G; try contradiction.
@@ -2085,6 +2221,11 @@ Proof.
     destruct (Nat.eqb_spec (b_per1 b) 0) as [Hper|Hper]; [|discriminate]. cbn [negb] in E. injection E as <-.
     unfold obj_along, ghost_ok. cbn [o_bases]. apply Forall_upd; [exact HG|].
     apply images_make_periodic; [apply (Forall_nth_in _ _ d dflt_basis (proj2 HI) Hd)|lia|unfold b_nfun in G; lia].
+  - (* lower_periodic *)
+    cbn [step2] in E. destruct (Nat.ltb_spec d (o_pardim o)) as [L|L]; [|discriminate].
+    destruct (lower_periodic_inv t d 64 o o' HI L G E) as (_ & A2 & A3 & A4).
+    apply (Forall_by_nth _ (o_bases o) _ dflt_basis A2). intros i Hi. destruct (Nat.eq_dec i d) as [->|Ne]; [exact A3|].
+    rewrite A4 by exact Ne. apply Forall_nth_in; assumption.
   - (* append: one non-periodic basis *)
     cbn [step2] in E. destruct (_ && _); [|discriminate]. unfold obj_append in E. cbv zeta in E.
     destruct (negb _ || negb _); [discriminate|]. destruct (obj_compatible o o2) as [c1 c2].
@@ -2393,8 +2534,9 @@ Proof.
 Qed.
 
 (* ------------------------------------------------------------------------------------------------ *)
-(* the executed (Q) instance: a history of eleven operations (ten different kinds; the last one inserts two knots, one of them
-   outside the base period, into a periodic direction) on a rational surface succeeds, every
+(* the executed (Q) instance: a history of twelve operations (eleven different kinds; the insertion near the end puts two knots,
+   one of them outside the base period, into a periodic direction; the last one opens the curve again) on a rational surface
+   succeeds, every
    intermediate object passes the executable well-formedness test of Model/WF.v (which includes positive weights) *)
 From Coq Require Import QArith.
 Definition q_run2 := @run2 Q NumQ.
@@ -2407,15 +2549,15 @@ Definition exq_tol : Q := (1#1000000)%Q.
 Definition exq_hist : list (@op2 Q) :=
   [OpOld (OpInsert 0 [(1#2)%Q]); OpRaise [1%nat; 0%nat]; OpSplitPick 1 [(1#2)%Q] 1; OpRotate (3#5)%Q (4#5)%Q [0;0;1]%Q 1%Q;
    OpMirror [1;0;0]%Q 1%Q; OpSection [0%nat]; OpOld (OpReverse 0); OpMakeIdentical exq_c None; OpAppend exq_c; OpMakePeriodic 0%Z 0;
-   OpOld (OpInsert 0 [(1#4)%Q; (7#2)%Q])].
+   OpOld (OpInsert 0 [(1#4)%Q; (7#2)%Q]); OpLowerPeriodic 0 0].
 
 Example ops2_example_Q :
   match q_run2 exq_tol exq_o exq_hist with
-  | Ok o' => @wf_obj_b Q NumQ exq_tol o' = true /\ @o_shape Q o' = [10%nat] /\ o_dim o' = 3%nat /\ o_rat o' = true /\
-             map (@b_per1 Q) (o_bases o') = [1%nat]
+  | Ok o' => @wf_obj_b Q NumQ exq_tol o' = true /\ @o_shape Q o' = [11%nat] /\ o_dim o' = 3%nat /\ o_rat o' = true /\
+             map (@b_per1 Q) (o_bases o') = [0%nat]
   | Err _ => False
   end /\
-  length (q_trace2 exq_tol exq_o exq_hist) = 12%nat /\
+  length (q_trace2 exq_tol exq_o exq_hist) = 13%nat /\
   forallb (@wf_obj_b Q NumQ exq_tol) (q_trace2 exq_tol exq_o exq_hist) = true.
 Proof. vm_compute. repeat split; reflexivity. Qed.
 
@@ -2429,17 +2571,3 @@ Example periodic_insert_counterexample :
   end.
 Proof. vm_compute. repeat split; reflexivity. Qed.
 
-Print Assumptions step2_preserves_inv.
-Print Assumptions step2_preserves_weights.
-Print Assumptions reachable_inv.
-Print Assumptions trace_inv.
-Print Assumptions reachable_weights.
-Print Assumptions step2_preserves_ghost.
-Print Assumptions reachable_inv_ghost.
-Print Assumptions witness_R_periodic.
-Print Assumptions reachable_inv_any.
-Print Assumptions reachable_inv_covered.
-Print Assumptions flat_index_bijection.
-Print Assumptions c2f_entry.
-Print Assumptions witness_R.
-Print Assumptions ops2_example_Q.
